@@ -11,7 +11,7 @@ memory is a faulting region), base, idle_addr, ...
 """
 from migen import Module, Signal, Cat, Constant, Memory, Mux, If, Replicate
 
-from litex.soc.interconnect import wishbone, csr_bus, ahb
+from litex.soc.interconnect import wishbone, csr_bus, ahb, stream
 from litex.soc.interconnect.axi import axi_lite, axi_full, axi_lite_to_wishbone, axi_full_to_axi_lite, \
     axi_full_to_wishbone, axi_lite_to_csr
 from litex.soc.interconnect.axi.axi_common import RESP_SLVERR
@@ -78,6 +78,15 @@ def _axi_mem(top, lanes, img, addrw=ADDRW):
     return bus
 
 
+def _soc_adapter(top, standard, data_width, interface, direction):
+    import logging
+    from litex.soc.integration.soc import SoCBusHandler
+    logging.getLogger("SoCBusHandler").setLevel(logging.ERROR)
+    bus = SoCBusHandler(standard=standard, data_width=data_width, address_width=32)
+    top.submodules.bus = bus
+    return bus.add_adapter("dut", interface, direction)
+
+
 # ------------------------------------------------------------------------------------ stall shims
 def _gate_req(top, up, dn, g):
     """request channel bridge -> memory, stalled while g = 0 (an offer the memory has seen stays)"""
@@ -95,12 +104,22 @@ def _gate_resp(top, dn, up, g):
     top.sync += held.eq(up.valid & ~up.ready)
 
 
-def _axi_shim(top, up, dn, gates, badbyte=None):
-    """AXI-Lite / AXI stall shim between the bridge's master port `up` and the memory `dn`"""
+def _axi_shim(top, up, dn, gates, badbyte=None, wbuf=False, abuf=False):
+    """AXI-Lite / AXI stall shim between the bridge's master port `up` and the memory `dn`.
+    wbuf / abuf: a stream.Buffer in front of the gate on W / on AW and AR, i.e. a partner that accepts
+    data before its address / addresses ahead of the memory"""
     ga, gw, gb, gr, gR = gates
-    _gate_req(top, up.aw, dn.aw, ga)
-    _gate_req(top, up.w, dn.w, gw)
-    _gate_req(top, up.ar, dn.ar, gr)
+
+    def buffered(ch, on):
+        if not on:
+            return ch
+        buf = stream.Buffer(ch.description)
+        top.submodules += buf
+        top.comb += ch.connect(buf.sink)
+        return buf.source
+    _gate_req(top, buffered(up.aw, abuf), dn.aw, ga)
+    _gate_req(top, buffered(up.w, wbuf), dn.w, gw)
+    _gate_req(top, buffered(up.ar, abuf), dn.ar, gr)
     _gate_resp(top, dn.b, up.b, gb)
     _gate_resp(top, dn.r, up.r, gR)
     if badbyte is not None:
@@ -211,6 +230,8 @@ def slave_lanes(spec):
         return L // spec["ratio"]
     if k == "up":
         return L * spec["ratio"]
+    if k in ("chain_wb_axil", "chain_axil_wb"):
+        return spec["slanes"]
     return spec.get("slanes", L)
 
 
@@ -248,7 +269,7 @@ def make(spec):
             cls = {"down": axi_lite.AXILiteDownConverter, "up": axi_lite.AXILiteUpConverter,
                    "conv": axi_lite.AXILiteConverter}[kind]
             top.submodules += cls(m, s)
-            _axi_shim(top, s, mem, gates, badbyte)
+            _axi_shim(top, s, mem, gates, badbyte, wbuf=bool(spec.get("wbuf")), abuf=bool(spec.get("abuf")))
             souts = _axi_souts(s, SL, False)
         elif kind == "axil2csr":
             csr = csr_bus.Interface(data_width=8 * L, address_width=ADDRW)
@@ -262,6 +283,15 @@ def make(spec):
             top.submodules += axi_full_to_axi_lite.AXILite2AXI(m, s)
             _axi_shim(top, s, mem, gates, None)
             souts = _axi_souts(s, SL, True)
+        elif kind == "chain_axil_wb":
+            # what SoCBusHandler.add_adapter really builds for an AXI-Lite master of 8*L bits on a
+            # Wishbone bus of 8*SL bits: AXILiteConverter + AXILite2Wishbone
+            m = axi_lite.AXILiteInterface(data_width=8 * L, address_width=32)
+            wb = _soc_adapter(top, "wishbone", 8 * SL, m, "m2s")
+            assert isinstance(wb, wishbone.Interface) and wb.data_width == 8 * SL
+            mem = _wb_sram(top, SL, img, 30)
+            _wb_shim(top, wb, mem, gates[0], None)
+            souts = _wb_souts(wb, SL)
         else:
             raise ValueError(kind)
         ins, outs = _axil_master(top, spec, m)
@@ -272,7 +302,7 @@ def make(spec):
             s = axi_lite.AXILiteInterface(data_width=8 * L, address_width=ADDRW)
             mem = _axil_sram(top, L, img)
             top.submodules += axi_lite_to_wishbone.Wishbone2AXILite(m, s, base_address=spec.get("base", 0))
-            _axi_shim(top, s, mem, gates, badbyte)
+            _axi_shim(top, s, mem, gates, badbyte, wbuf=bool(spec.get("wbuf")), abuf=bool(spec.get("abuf")))
             souts = _axi_souts(s, SL, False)
         elif kind == "wb2axi":
             s = axi_full.AXIInterface(data_width=8 * L, address_width=ADDRW, id_width=1)
@@ -280,6 +310,15 @@ def make(spec):
             top.submodules += axi_full_to_wishbone.Wishbone2AXI(m, s, base_address=spec.get("base", 0))
             _axi_shim(top, s, mem, gates, None)
             souts = _axi_souts(s, SL, True)
+        elif kind == "chain_wb_axil":
+            # Wishbone master of 8*L bits on an AXI-Lite bus of 8*SL bits: wishbone.Converter, word->byte
+            # address adaptation and Wishbone2AXILite, as built by SoCBusHandler.add_adapter
+            m = wishbone.Interface(data_width=8 * L, address_width=32, addressing="word")
+            s = _soc_adapter(top, "axi-lite", 8 * SL, m, "m2s")
+            assert isinstance(s, axi_lite.AXILiteInterface) and s.data_width == 8 * SL
+            mem = _axil_sram(top, SL, img, addrw=32)
+            _axi_shim(top, s, mem, gates, None)
+            souts = _axi_souts(s, SL, False)
         else:
             raise ValueError(kind)
         ins, outs = _wb_master(top, spec, m)
@@ -289,7 +328,7 @@ def make(spec):
             s = axi_lite.AXILiteInterface(data_width=8 * L, address_width=ADDRW)
             mem = _axil_sram(top, L, img)
             top.submodules += axi_full_to_axi_lite.AXI2AXILite(m, s)
-            _axi_shim(top, s, mem, gates, badbyte)
+            _axi_shim(top, s, mem, gates, badbyte, wbuf=bool(spec.get("wbuf")), abuf=bool(spec.get("abuf")))
             souts = _axi_souts(s, SL, False)
         elif kind == "axi2wb":
             shift = (L - 1).bit_length()
@@ -335,8 +374,9 @@ def tla_cfg(spec):
     img = image(spec)
     mo = {"axil": 7 + L, "wb": 2 + L, "axi": 10 + L, "ahb": 2 + L}[mp]
     return {"mp": mp, "sp": slave_proto(spec), "lanes": L, "words": spec["words"], "init": img,
-            "k": spec.get("k", 1), "serial": int(spec.get("serial", 0)), "dirs": spec.get("dirs", "rw"), "walpha": walpha(spec), "rsels": list(spec.get("rsels", [2 ** L - 1])),
-            "sizes": list(spec.get("sizes", [0, 1, 2])), "datas": list(spec.get("datas", [5, 10])),
+            "k": spec.get("k", 1), "serial": int(spec.get("serial", 0)), "awfirst": int(spec.get("awfirst", 0)), "dirs": spec.get("dirs", "rw"), "walpha": walpha(spec), "wwords": list(spec.get("wwords", range(spec["words"]))), "rsels": list(spec.get("rsels", [2 ** L - 1])),
+            "sizes": list(spec.get("sizes", [0, 1, 2])),
+            "addrs": list(spec.get("addrs", range(spec["words"] * L))), "datas": list(spec.get("datas", [5, 10])),
             "plans": [list(p) for p in spec.get("plans", [[0, 0, 1]])],
             "readonly": int(bool(spec.get("read_only"))),
             "badlo": (len(img) // 2 + 1) if spec.get("bad") else 0,
@@ -345,49 +385,251 @@ def tla_cfg(spec):
 
 # ------------------------------------------------------------------------------------ speculation hint
 class Hint:
-    """held offers are repeated (accelerator only, verdicts never depend on it)"""
+    """speculation hint: a Python mirror of the Env's choice of inputs (which offers are held, which
+    readys are free, ...).  It is an accelerator only - it decides which edges are computed ahead of
+    TLC's requests; verdicts never depend on it (a wrong hint costs rounds or unused edges)."""
     def init(self, cfg):
-        return ()
+        mp = cfg["mp"]
+        if mp == "axil":
+            return (0, None, 0, 0, 0, 0)
+        if mp == "axi":
+            return (None, 0, 0, None, None, 0, 0)
+        if mp == "ahb":
+            return (None, None)
+        return None
 
-    def allowed(self, cfg, ctx, iv):
-        for pos, val in ctx:
-            if iv[pos] != val:
+    # ---------------------------------------------------------------- AXI-Lite master
+    def _axil_allowed(self, cfg, ctx, iv):
+        aw, w, nwa, nwd, arh, nacc = ctx
+        awv, awa, wv, ws, wdt, br, arv, ara, rr = iv[:9]
+        k, dirs = cfg["k"], cfg["dirs"]
+        if aw:
+            if not awv or awa != aw - 1:
                 return False
+        elif awv and (dirs == "r" or nwa >= k):
+            return False
+        if w is not None:
+            if not wv or (ws, wdt) != w:
+                return False
+        elif wv and (dirs == "r" or nwd >= k):
+            return False
+        if arh:
+            if not arv or ara != arh - 1:
+                return False
+        elif arv and (dirs == "w" or nacc >= k):
+            return False
+        if not ((nwa or awv) and (nwd or wv)) and not br:
+            return False
+        if not (nacc or arh or arv) and not rr:
+            return False
+        if cfg["serial"] and (awv or wv or nwa or nwd) and (arv or nacc or arh):
+            return False
+        if cfg.get("awfirst") and wv and nwd + 1 > nwa + (1 if awv else 0):
+            return False
         return True
+
+    def _axil_next(self, cfg, ctx, iv, o):
+        aw, w, nwa, nwd, arh, nacc = ctx
+        awv, awa, wv, ws, wdt, br, arv, ara, rr = iv[:9]
+        awfire, wfire, arfire = awv and o[0], wv and o[1], arv and o[4]
+        nwa += 1 if awfire else 0
+        nwd += 1 if wfire else 0
+        if o[2] and br and nwa and nwd:
+            nwa -= 1
+            nwd -= 1
+        nacc += 1 if arfire else 0
+        if o[5] and rr and nacc:
+            nacc -= 1
+        return (awa + 1 if awv and not awfire else 0, (ws, wdt) if wv and not wfire else None, nwa, nwd,
+                ara + 1 if arv and not arfire else 0, nacc)
+
+    # ---------------------------------------------------------------- AXI master
+    def _axi_allowed(self, cfg, ctx, iv):
+        wreq, awst, nwd, wh, rreq, arst, nrexp = ctx
+        awv, pa, pl, pb, wv, ws, wdt, wl, br, arv, ra, rl, rb, rr = iv[:14]
+        dirs = cfg["dirs"]
+        if wreq is not None:
+            if (pa, pl, pb) != wreq or (awst == 1 and not awv) or (awst == 2 and awv):
+                return False
+            if wh is not None:
+                if not wv or (ws, wdt) != wh:
+                    return False
+            elif wv and nwd > pl:
+                return False
+            if wv and wl != int(nwd == pl):
+                return False
+        elif awv or wv:
+            if dirs == "r" or [pa, pl, pb] not in cfg["plans"] or (wv and wl != int(pl == 0)):
+                return False
+        elif pa or pl or pb:
+            return False
+        if rreq is not None:
+            if arv != int(arst == 1) or (arv and (ra, rl, rb) != rreq) or (not arv and (ra or rl or rb)):
+                return False
+        elif arv:
+            if dirs == "w" or [ra, rl, rb] not in cfg["plans"]:
+                return False
+        wnow = wreq is not None or awv or wv
+        rnow = rreq is not None or arv
+        if (not wnow and not br) or (not rnow and not rr):
+            return False
+        if cfg["serial"] and wnow and rnow:
+            return False
+        return True
+
+    def _axi_next(self, cfg, ctx, iv, o):
+        wreq, awst, nwd, wh, rreq, arst, nrexp = ctx
+        awv, pa, pl, pb, wv, ws, wdt, wl, br, arv, ra, rl, rb, rr = iv[:14]
+        if wreq is None and (awv or wv):
+            wreq = (pa, pl, pb)
+        awfire, wfire, arfire = awv and o[0], wv and o[1], arv and o[5]
+        awst = 2 if awfire else 1 if awv else awst
+        nwd += 1 if wfire else 0
+        wh = (ws, wdt) if wv and not wfire else None
+        if wreq is not None and o[2] and br and awst == 2 and nwd == wreq[1] + 1:
+            wreq, awst, nwd, wh = None, 0, 0, None
+        if rreq is None and arv:
+            rreq, nrexp = (ra, rl, rb), rl + 1
+        arst = 2 if arfire else 1 if arv else arst
+        if rreq is not None and o[6] and rr and arst == 2 and nrexp > 0:
+            nrexp -= 1
+            if nrexp == 0:
+                rreq, arst = None, 0
+        return (wreq, awst, nwd, wh, rreq, arst, nrexp)
+
+    # ---------------------------------------------------------------- AHB master
+    def _ahb_allowed(self, cfg, ctx, iv):
+        ap, dp = ctx
+        if ap is not None and tuple(iv[:4]) != ap:
+            return False
+        if dp is None or dp[0] == "r":
+            return iv[4] == 0
+        if dp[1] is not None:
+            return iv[4] == dp[1]
+        return iv[4] in cfg["datas"]
+
+    def _ahb_next(self, cfg, ctx, iv, o):
+        ap, dp = ctx
+        if not o[0]:
+            return (tuple(iv[:4]) if iv[0] else None, ("w", iv[4]) if dp and dp[0] == "w" else dp)
+        return (None, (("w", None) if iv[2] else ("r",)) if iv[0] else None)
+
+    # ---------------------------------------------------------------- dispatch
+    def allowed(self, cfg, ctx, iv):
+        mp = cfg["mp"]
+        if mp == "axil":
+            return self._axil_allowed(cfg, ctx, iv)
+        if mp == "axi":
+            return self._axi_allowed(cfg, ctx, iv)
+        if mp == "ahb":
+            return self._ahb_allowed(cfg, ctx, iv)
+        return ctx is None or tuple(iv[:5]) == ctx
 
     def next(self, cfg, ctx, iv, o):
         mp = cfg["mp"]
-        held = []
         if mp == "axil":
-            if iv[0] and not o[0]:
-                held += [(0, 1), (1, iv[1])]
-            if iv[2] and not o[1]:
-                held += [(2, 1), (3, iv[3]), (4, iv[4])]
-            if iv[6] and not o[4]:
-                held += [(6, 1), (7, iv[7])]
-        elif mp == "axi":
-            if iv[0] and not o[0]:
-                held += [(0, 1)]
-            if iv[0] or iv[4]:
-                held += [(1, iv[1]), (2, iv[2]), (3, iv[3])]
-            if iv[4] and not o[1]:
-                held += [(4, 1), (5, iv[5]), (6, iv[6]), (7, iv[7])]
-            if iv[9] and not o[5]:
-                held += [(9, 1), (10, iv[10]), (11, iv[11]), (12, iv[12])]
-        elif mp == "ahb":
-            if iv[0] and not o[0]:
-                held += [(i, iv[i]) for i in range(4)]
-        elif mp == "wb":
-            if iv[0] and not (o[0] or o[1]):
-                held = [(i, iv[i]) for i in range(5)]
-        return tuple(held)
+            return self._axil_next(cfg, ctx, iv, o)
+        if mp == "axi":
+            return self._axi_next(cfg, ctx, iv, o)
+        if mp == "ahb":
+            return self._ahb_next(cfg, ctx, iv, o)
+        if iv[0] and not (o[0] or o[1]):
+            return tuple(iv[:5])
+        return None
 
 
 # ------------------------------------------------------------------------------------ configurations
 def configs(tier):
+    """(spec, cfg) list.  live=1: explored with the liveness property (kept small: constant memory or few
+    inputs); case: names the input class of the configuration (part of a known finding's signature)."""
     out = []
+    T = tier == "thorough"
 
     def add(**spec):
         out.append((spec, tla_cfg(spec)))
-    add(mp="axil", kind="sram", lanes=1, words=2)
+    G1 = [1, 1, 1, 1, 1]          # one gate for all channels
+    GW = [1, 2, 3, 0, 0]          # independent AW / W / B gates (write direction)
+    GR = [0, 0, 0, 1, 2]          # independent AR / R gates (read direction)
+    G5 = [1, 2, 3, 4, 5]
+    WB = [1, 0, 0, 0, 0]          # Wishbone shim: the go gate
+    # ---------------------------------------------------------------- AXI-Lite SRAM
+    add(mp="axil", kind="sram", lanes=1, words=2, live=1)
+    add(mp="axil", kind="sram", lanes=1, words=2, k=2, live=1)
+    add(mp="axil", kind="sram", lanes=2, words=2, read_only=1, init="alt", strbs=[3, 1], datas=[3], live=1)
+    if T:
+        add(mp="axil", kind="sram", lanes=2, words=2, init="alt", datas=[1, 2])
+        add(mp="axil", kind="conv", lanes=1, words=2, live=1, gfree=G1)
+    # ---------------------------------------------------------------- AXI-Lite -> Wishbone
+    add(mp="axil", kind="axil2wb", lanes=1, words=2, gfree=WB, live=1)
+    add(mp="axil", kind="axil2wb", lanes=1, words=2, gfree=WB, base=1, serial=1)
+    add(mp="axil", kind="axil2wb", lanes=2, words=2, gfree=WB, base=0x40, serial=1, init="alt", strbs=[3, 2, 0], datas=[1, 2])
+    add(mp="axil", kind="axil2wb", lanes=1, words=2, gfree=WB, bad=1, datas=[0], init="zero", case="wishbone-err", live=1)
+    if T:
+        add(mp="axil", kind="axil2wb", lanes=1, words=2, gfree=WB, k=2, idle_addr=1, live=1)
+        add(mp="axil", kind="axil2wb", lanes=4, words=2, gfree=WB, serial=1, strbs=[15, 2, 0], datas=[5, 10], wwords=[1])
+    # ---------------------------------------------------------------- AXI-Lite down converter
+    add(mp="axil", kind="down", ratio=2, lanes=2, words=2, gfree=G1, strbs=[3, 1, 0], datas=[1, 2], serial=1, case="low-lanes-enabled")
+    add(mp="axil", kind="down", ratio=2, lanes=2, words=2, gfree=GW, dirs="w", datas=[0], init="zero", live=1, case="low-lanes-disabled")
+    add(mp="axil", kind="down", ratio=2, lanes=2, words=2, gfree=GW, dirs="w", strbs=[3, 1, 0], datas=[0], init="zero", live=1,
+        case="low-lanes-enabled")
+    add(mp="axil", kind="down", ratio=2, lanes=2, words=2, gfree=GR, dirs="r", live=1)
+    add(mp="axil", kind="down", ratio=2, lanes=2, words=2, gfree=G1, strbs=[3, 1], datas=[0], init="zero", bad=1, live=1,
+        case="low-lanes-enabled")
+    if T:
+        add(mp="axil", kind="down", ratio=2, lanes=2, words=2, gfree=G1, strbs=[3, 1, 0], datas=[0], init="zero", live=1,
+            case="low-lanes-enabled")
+        add(mp="axil", kind="down", ratio=4, lanes=4, words=2, gfree=G1, strbs=[15, 1, 3, 0], datas=[5, 10], wwords=[1], serial=1,
+            case="low-lanes-enabled")
+        add(mp="axil", kind="down", ratio=4, lanes=4, words=2, gfree=GR, dirs="r", live=1)
+        add(mp="axil", kind="down", ratio=2, lanes=2, words=2, gfree=GW, dirs="w", strbs=[3, 1, 0], datas=[0], init="zero", live=1,
+            wbuf=1, abuf=1, case="low-lanes-enabled")
+    # ---------------------------------------------------------------- AXI-Lite up converter
+    add(mp="axil", kind="up", ratio=2, lanes=1, words=4, gfree=G1, serial=1, awfirst=1, case="address-first")
+    add(mp="axil", kind="up", ratio=2, lanes=1, words=4, gfree=G1, datas=[0], init="zero", awfirst=1, live=1, case="address-first")
+    add(mp="axil", kind="up", ratio=2, lanes=1, words=4, gfree=G1, datas=[0], init="zero", live=1, case="data-before-address")
+    add(mp="axil", kind="up", ratio=2, lanes=1, words=4, strbs=[1], datas=[1], init="zero", k=2, awfirst=1, case="two-outstanding")
+    # ---------------------------------------------------------------- AXI-Lite -> CSR
+    add(mp="axil", kind="axil2csr", lanes=1, words=2, live=1)
+    if T:
+        add(mp="axil", kind="axil2csr", lanes=4, words=2, strbs=[15, 0], datas=[5, 10], serial=1)
+        add(mp="axil", kind="axil2csr", lanes=1, words=2, k=2, live=1)
+    # ---------------------------------------------------------------- AXI-Lite -> AXI
+    add(mp="axil", kind="axil2axi", lanes=1, words=2, gfree=G1, serial=1)
+    add(mp="axil", kind="axil2axi", lanes=1, words=2, gfree=[1, 2, 3, 3, 3], datas=[0], init="zero", live=1)
+    # ---------------------------------------------------------------- Wishbone -> AXI-Lite / AXI
+    add(mp="wb", kind="wb2axil", lanes=1, words=2, gfree=G5, live=1)
+    add(mp="wb", kind="wb2axil", lanes=2, words=2, gfree=G1, init="alt", datas=[1, 2])
+    add(mp="wb", kind="wb2axil", lanes=1, words=2, gfree=G1, bad=1, datas=[0], init="zero", live=1)
+    add(mp="wb", kind="wb2axil", lanes=4, words=2, dirs="r", base=4, live=1)
+    add(mp="wb", kind="wb2axil", lanes=4, words=2, dirs="r", base=0x40, live=1)
+    add(mp="wb", kind="wb2axil", lanes=8, words=2, dirs="r", base=8, live=1, case="base-address-64bit")
+    add(mp="wb", kind="wb2axi", lanes=1, words=2, gfree=G5, live=1)
+    if T:
+        add(mp="wb", kind="wb2axil", lanes=1, words=2, gfree=GW, wbuf=1, abuf=1, live=1)
+        add(mp="wb", kind="wb2axil", lanes=4, words=2, gfree=G1, strbs=[15, 2, 0], datas=[5, 10], wwords=[1], base=4)
+        add(mp="wb", kind="wb2axi", lanes=2, words=2, gfree=G1, init="alt", datas=[1, 2])
+    # ---------------------------------------------------------------- adapter chains of SoCBusHandler.add_adapter
+    add(mp="wb", kind="chain_wb_axil", lanes=4, slanes=8, words=4, wwords=[0, 3], strbs=[15, 2], datas=[5, 10], gfree=G1, live=1)
+    if T:
+        add(mp="axil", kind="chain_axil_wb", lanes=8, slanes=4, words=2, wwords=[1], strbs=[255, 15, 1], datas=[0x55, 0xaa],
+            gfree=WB, serial=1, live=1, case="low-lanes-enabled")
+    # ---------------------------------------------------------------- AXI -> AXI-Lite / Wishbone
+    P3 = [[0, 0, 1], [1, 1, 1], [2, 3, 2]]
+    P7 = [[0, 0, 1], [3, 0, 1], [1, 1, 1], [1, 2, 1], [2, 1, 0], [1, 1, 2], [2, 3, 2]]
+    add(mp="axi", kind="axi2axil", lanes=1, words=4, serial=1, plans=P3, gfree=G1)
+    add(mp="axi", kind="axi2axil", lanes=1, words=2, datas=[0], init="zero", plans=[[0, 0, 1], [0, 1, 1]], gfree=[1, 2, 3, 3, 3], live=1)
+    add(mp="axi", kind="axi2axil", lanes=1, words=2, datas=[0], strbs=[1], init="zero", serial=1, plans=[[0, 0, 1], [1, 0, 1], [0, 1, 1]],
+        gfree=G1, bad=1, live=1, case="axi-lite-error")
+    add(mp="axi", kind="axi2wb", lanes=1, words=4, serial=1, plans=P3, gfree=WB)
+    if T:
+        add(mp="axi", kind="axi2axil", lanes=1, words=4, serial=1, plans=P7, gfree=G1, big=1)
+        add(mp="axi", kind="axi2wb", lanes=1, words=4, serial=1, plans=P7, gfree=WB, big=1)
+        add(mp="axi", kind="axi2wb", lanes=1, words=2, datas=[0], init="zero", plans=[[0, 0, 1], [0, 1, 1]], gfree=WB, live=1)
+        add(mp="axi", kind="axi2axil", lanes=2, words=2, serial=1, init="alt", strbs=[3, 2, 0], datas=[1, 2], plans=[[0, 0, 1], [0, 1, 1], [1, 1, 2]],
+            gfree=G1)
+    # ---------------------------------------------------------------- AHB -> Wishbone
+    add(mp="ahb", kind="ahb2wb", lanes=4, words=2, datas=[5, 10], sizes=[0], addrs=[0, 1, 3, 4], gfree=WB, live=1)
+    add(mp="ahb", kind="ahb2wb", lanes=4, words=2, datas=[5, 10], sizes=[1, 2], addrs=[0, 2, 4, 6], gfree=WB)
+    add(mp="ahb", kind="ahb2wb", lanes=4, words=2, datas=[5], sizes=[2], addrs=[0, 4], init="zero", gfree=WB, bad=1, live=1,
+        case="wishbone-err")
     return out
